@@ -144,7 +144,11 @@ func init() {
 		//   twice-noid      rotating single-use refresh tokens, refresh answers WITHOUT id_token: the 2nd refresh must present the token the 1st one returned
 		//   nort-invalid    a stale session WITHOUT a refresh token whose ID token is no longer valid: re-validation must refuse it
 		//   nort-valid      … whose ID token is still valid: re-validated and served, no refresh call
-		for _, k := range []string{"twice-noid", "cookie-twice-noid", "nort-invalid", "cookie-nort-invalid", "nort-valid", "cookie-nort-valid"} {
+		//   grow            the refresh answer makes the session outgrow one cookie (its cookie names change): the browser's NEXT requests carry the new
+		//                   tokens upstream and the next refresh presents the newest refresh token
+		//   skipiss-…       the same re-validation with --insecure-oidc-skip-issuer-verification: only the issuer check is switched off
+		for _, k := range []string{"twice-noid", "cookie-twice-noid", "nort-invalid", "cookie-nort-invalid", "nort-valid", "cookie-nort-valid",
+			"grow", "cookie-grow", "skipiss-nort-invalid", "cookie-skipiss-nort-invalid"} {
 			scs = append(scs, scenario{k, 1, 0})
 		}
 		// option validation configures the process-wide logger: build the environments one
@@ -157,7 +161,8 @@ func init() {
 			}
 			envs := make([]*testEnv, hi-lo)
 			for i := range envs {
-				e, err := newEnv(c, proxyCfg{Redis: !strings.HasPrefix(scs[lo+i].kind, "cookie"), CookieRefresh: time.Second, RedisRealTime: true})
+				e, err := newEnv(c, proxyCfg{Redis: !strings.HasPrefix(scs[lo+i].kind, "cookie"), CookieRefresh: time.Second, RedisRealTime: true,
+					SkipIssuerCheck: strings.Contains(scs[lo+i].kind, "skipiss")})
 				if err != nil {
 					c.violation("HARNESS", "env: "+err.Error(), nil)
 					c.close(nil)
@@ -177,9 +182,12 @@ func init() {
 					e.idp.mu.Lock()
 					e.idp.rotateRT = true
 					e.idp.mu.Unlock()
-					if k := strings.TrimPrefix(sc.kind, "cookie-"); k == "twice-noid" || k == "nort-invalid" || k == "nort-valid" {
+					if k := strings.TrimPrefix(strings.TrimPrefix(sc.kind, "cookie-"), "skipiss-"); k == "twice-noid" || k == "nort-invalid" || k == "nort-valid" || k == "grow" {
 						e.seqScenario(c, k, in, si)
 						c.count("scenario:" + k)
+						if strings.Contains(sc.kind, "skipiss") {
+							c.count("scenario:skipiss")
+						}
 						return
 					}
 					// (a saturated machine can make a login take longer than a short token lifetime: retry with a longer one)
@@ -353,7 +361,7 @@ func init() {
 			wg.Wait()
 		}
 		c.close([]string{"scenario:once", "scenario:keep-old", "scenario:reject", "scenario:cookie-ok", "scenario:cookie-reject",
-			"concurrency:2", "concurrency:16", "scenario:twice-noid", "scenario:nort-invalid", "scenario:nort-valid", "scenario:once-slow-idp"})
+			"concurrency:2", "concurrency:16", "scenario:twice-noid", "scenario:nort-invalid", "scenario:nort-valid", "scenario:once-slow-idp", "scenario:grow", "scenario:skipiss"})
 	})
 }
 
@@ -361,9 +369,15 @@ func init() {
 func (e *testEnv) seqScenario(c *suiteCtx, kind string, in map[string]interface{}, si int) {
 	u := defaultUser()
 	switch kind {
-	case "twice-noid":
+	case "twice-noid", "grow":
+		pad := ""
 		e.idp.mu.Lock()
-		e.idp.refreshReturnsIDToken = false
+		if kind == "twice-noid" {
+			e.idp.refreshReturnsIDToken = false
+		} else {
+			pad = fmt.Sprintf("%x", newRng(c.seed+uint64(si)).bytes(3000)) // incompressible: the refreshed session needs several cookies
+			e.idp.accessTokenPad = pad
+		}
 		e.idp.mu.Unlock()
 		b := newBrowser()
 		if lr := e.login(b, u, "/"); !lr.OK {
@@ -385,10 +399,19 @@ func (e *testEnv) seqScenario(c *suiteCtx, kind string, in map[string]interface{
 				c.violation("C12", fmt.Sprintf("refresh #%d presented an already used (rotated) refresh token: the session did not keep the token the previous refresh returned", round), in)
 				return
 			}
-			if refreshes != round || res[0].status != 200 || res[0].at != fmt.Sprintf("at-%d", seq) {
-				c.violation("C12", fmt.Sprintf("refresh period #%d (answers without id_token, rotating refresh tokens): status %d, upstream token %q, %d refreshes at the identity provider (want 200, the newest token, %d)",
-					round, res[0].status, res[0].at, refreshes, round), in)
+			if refreshes != round || res[0].status != 200 || res[0].at != fmt.Sprintf("at-%d", seq)+pad {
+				c.violation("C12", fmt.Sprintf("refresh period #%d (%s, rotating refresh tokens): status %d, upstream token %q, %d refreshes at the identity provider (want 200, the newest token, %d)",
+					round, map[string]string{"twice-noid": "answers without id_token", "grow": "the refreshed session outgrows one cookie"}[kind], res[0].status, truncate(res[0].at, 24), refreshes, round), in)
 				return
+			}
+			if kind == "grow" {
+				// between two refresh periods: the browser's next request (its jar after applying the response) carries the NEW tokens
+				mid := e.fire(1, b.cookieHeader())
+				if r2, _, _ := e.idpCounts(); time.Since(created) < 700*time.Millisecond && (mid[0].status != 200 || mid[0].at != fmt.Sprintf("at-%d", seq)+pad || r2 != round) {
+					c.violation("C12", fmt.Sprintf("after refresh #%d (the refreshed session outgrew one cookie) the browser's next request got status %d with upstream token %q and %d refreshes (want 200, the refreshed token, %d): the old cookie is still the one that loads",
+						round, mid[0].status, truncate(mid[0].at, 24), r2, round), in)
+					return
+				}
 			}
 		}
 	case "nort-invalid", "nort-valid":
